@@ -5,12 +5,14 @@ package main
 import (
 	"fmt"
 	"net/http/httptest"
+	"os"
 	"strings"
 
 	"github.com/oauth2-proxy/oauth2-proxy/v7/pkg/apis/sessions"
 	"github.com/oauth2-proxy/oauth2-proxy/v7/verifx/explore"
 	"github.com/oauth2-proxy/oauth2-proxy/v7/verifx/sched"
 	"github.com/oauth2-proxy/oauth2-proxy/v7/verifx/vatomic"
+	"github.com/oauth2-proxy/oauth2-proxy/v7/verifx/vrt"
 	"github.com/oauth2-proxy/oauth2-proxy/v7/verifx/world"
 )
 
@@ -24,10 +26,21 @@ import (
 // introduced there makes its operations scheduling points at once.
 func c10Concurrent(c *Ctx, up *world.Upstream) {
 	vatomic.Hooks = true
-	for si, store := range []string{"cookie", "redis"} {
-		if !c.Mine(si) {
-			continue
+	// With the wide instrumentation (check.sh) every statement of the session encoding, encryption
+	// and store packages that touches shared data is a scheduling point as well; the exploration is
+	// then bounded by preemptions instead of running to exhaustion.
+	wide := os.Getenv("VERIF_WIDE") == "1"
+	maxCost := 1000
+	if wide {
+		vrt.Enabled = true
+		defer func() { vrt.Enabled = false }()
+		maxCost = 1
+		if !c.Quick() {
+			maxCost = 2
 		}
+	}
+	c.Info["concurrent_part"] = map[string]any{"wide_instrumentation": wide, "preemption_bound": maxCost}
+	for _, store := range []string{"cookie", "redis"} {
 		cfg := &ProxyCfg{Flags: append(baseFlags(up.URL()), "--email-domain=*", "--cookie-secure=false")}
 		if store == "redis" {
 			cfg.Redis = world.NewRedis()
@@ -46,7 +59,7 @@ func c10Concurrent(c *Ctx, up *world.Upstream) {
 			if cfg.Redis != nil {
 				cfg.Redis.M.FlushAll()
 			}
-			s := sched.New(x, sched.Options{Horizon: 200, MaxSteps: 5000})
+			s := sched.New(x, sched.Options{Horizon: 400, MaxSteps: 50000})
 			for t := 0; t < 2; t++ {
 				t := t
 				who := []string{"anna", "bert"}[t]
@@ -76,8 +89,11 @@ func c10Concurrent(c *Ctx, up *world.Upstream) {
 			}
 			return s.Run(), results
 		}
-		stats := explore.Run(explore.Config{MaxCost: 1000, Deadline: c.Deadline, MaxExecs: 20000}, func(x *explore.Exec, own bool) {
+		stats := explore.Run(explore.Config{MaxCost: maxCost, Deadline: c.Deadline, MaxExecs: 2000000, Shard: c.Shard, Shards: c.Shards, ShardDepth: 2}, func(x *explore.Exec, own bool) {
 			out, results := body(x)
+			if !own {
+				return
+			}
 			c.Inc("evaluations")
 			c.Inc("concurrent_executions")
 			c.Add("transitions", int64(out.Steps))
